@@ -149,6 +149,123 @@ func genKeysFacts(repo string, emit func(name, leanDef string, err error)) {
 			emit(h.name, fmt.Sprintf("/-- impl_operator_hooks.go: %s — store calls when the key is in the validator set / when it is not -/\ndef %s : List String × List String := (%s, %s)", h.fn, h.name, leanStrList(a), leanStrList(b)), e)
 		}
 	}()
+	// ---- AfterOperatorKeyRemovalInitiated: `if !found { … previous key … }` before the branch
+	func() {
+		_, f, err := vParse(repo, "x/dogfood/keeper/impl_operator_hooks.go")
+		if err != nil {
+			emit("hookKeyRemovalPrevKeyCheck", "", err)
+			return
+		}
+		fd := findFunc(f, "OperatorHooksWrapper.AfterOperatorKeyRemovalInitiated")
+		if fd == nil {
+			emit("hookKeyRemovalPrevKeyCheck", "", fmt.Errorf("AfterOperatorKeyRemovalInitiated not found"))
+			return
+		}
+		var calls []string
+		ok := false
+		ast.Inspect(fd.Body, func(x ast.Node) bool {
+			ifs, is := x.(*ast.IfStmt)
+			if !is || ok {
+				return true
+			}
+			if u, isU := ifs.Cond.(*ast.UnaryExpr); isU && u.Op == token.NOT && exprText(u.X) == "found" && ifs.Else == nil {
+				calls = callNames(ifs.Body, isStoreCall)
+				// the result must be assigned back to `found`
+				assigns := false
+				ast.Inspect(ifs.Body, func(y ast.Node) bool {
+					if as, isA := y.(*ast.AssignStmt); isA && as.Tok == token.ASSIGN && len(as.Lhs) == 2 && exprText(as.Lhs[1]) == "found" {
+						assigns = true
+					}
+					return true
+				})
+				ok = assigns
+				return false
+			}
+			return true
+		})
+		if !ok {
+			emit("hookKeyRemovalPrevKeyCheck", "", fmt.Errorf("`if !found { …; _, found = … }` (previous-key check) not found in AfterOperatorKeyRemovalInitiated"))
+			return
+		}
+		emit("hookKeyRemovalPrevKeyCheck", "/-- impl_operator_hooks.go: AfterOperatorKeyRemovalInitiated — when the current key is not in the set, `found` is recomputed from these calls -/\ndef hookKeyRemovalPrevKeyCheck : List String := "+leanStrList(calls), nil)
+	}()
+	// ---- impl_delegation_hooks.go: the opting-out branch of AfterUndelegationStarted
+	func() {
+		fset, f, err := vParse(repo, "x/dogfood/keeper/impl_delegation_hooks.go")
+		names := []string{"undelegationMissingFinishEpoch", "undelegationOptOutBranch"}
+		if err != nil {
+			for _, n := range names {
+				emit(n, "", err)
+			}
+			return
+		}
+		fd := findFunc(f, "DelegationHooksWrapper.AfterUndelegationStarted")
+		if fd == nil {
+			for _, n := range names {
+				emit(n, "", fmt.Errorf("AfterUndelegationStarted not found"))
+			}
+			return
+		}
+		t := &vtr{fset: fset, atoms: map[string]vAtom{"unbondingCompletionEpoch": {"f", "Int"}}}
+		// the branch taken for an operator that is removing its key: the first if whose condition
+		// calls IsOperatorRemovingKeyFromChainID
+		var branch *ast.BlockStmt
+		ast.Inspect(fd.Body, func(x ast.Node) bool {
+			ifs, is := x.(*ast.IfStmt)
+			if is && branch == nil && strings.Contains(t.src(ifs.Cond), "IsOperatorRemovingKeyFromChainID(") {
+				branch = ifs.Body
+				return false
+			}
+			return true
+		})
+		if branch == nil {
+			for _, n := range names {
+				emit(n, "", fmt.Errorf("opting-out branch not found"))
+			}
+			return
+		}
+		// shape of the branch: every statement that touches unbondingCompletionEpoch, in order
+		var shape []string
+		cond := ""
+		for _, st := range branch.List {
+			txt := t.src(st)
+			if !strings.Contains(txt, "unbondingCompletionEpoch") {
+				continue
+			}
+			switch x := st.(type) {
+			case *ast.AssignStmt:
+				if len(x.Lhs) == 1 && exprText(x.Lhs[0]) == "unbondingCompletionEpoch" && len(x.Rhs) == 1 {
+					if c, ok := x.Rhs[0].(*ast.CallExpr); ok {
+						if sel, ok := c.Fun.(*ast.SelectorExpr); ok {
+							shape = append(shape, "assign:"+sel.Sel.Name)
+							continue
+						}
+					}
+				}
+				shape = append(shape, "assign:?")
+			case *ast.IfStmt:
+				if x.Init == nil && x.Else == nil && len(x.Body.List) == 1 {
+					if r, isR := x.Body.List[0].(*ast.ReturnStmt); isR && len(r.Results) == 1 && exprText(r.Results[0]) == "nil" {
+						c, e := vGuard(func() string { s, _ := t.expr(x.Cond); return s })
+						if e == nil {
+							cond = c
+							shape = append(shape, "return-nil-if")
+							continue
+						}
+					}
+				}
+				shape = append(shape, "if:?")
+			default:
+				shape = append(shape, "stmt:?")
+			}
+		}
+		if cond == "" {
+			emit("undelegationMissingFinishEpoch", "", fmt.Errorf("`if unbondingCompletionEpoch <cmp> … { return nil }` not found in the opting-out branch of AfterUndelegationStarted"))
+		} else {
+			emit("undelegationMissingFinishEpoch", "/-- impl_delegation_hooks.go: AfterUndelegationStarted — condition on the opt-out finish epoch f under which the hook returns nil without holding -/\ndef undelegationMissingFinishEpoch (f : Int) : Bool := "+cond, nil)
+		}
+		emit("undelegationOptOutBranch", "/-- impl_delegation_hooks.go: AfterUndelegationStarted, operator opting out — the statements that read or write the completion epoch, in order -/\ndef undelegationOptOutBranch : List String := "+leanStrList(shape), nil)
+	}()
 	// ---- impl_epochs_hooks.go: AfterEpochEnd
 	func() {
 		_, f, err := vParse(repo, "x/dogfood/keeper/impl_epochs_hooks.go")
